@@ -19,7 +19,7 @@ namespace rc = romea::core;
 
 namespace {
 
-struct CU {int kind; std::string name; double a, b; int initStatus = -1; std::string initMessage;};   // initStatus >= 0: constructed with an initial Diagnostic
+struct CU {int kind; std::string name; double a, b; int initStatus = -1; std::string initMessage; int vtype = 0;};   // vtype: value type of the check-up template, 0 double, 1 float, 2 int   // initStatus >= 0: constructed with an initial Diagnostic
 
 struct Ev
 {
@@ -29,15 +29,27 @@ struct Ev
   std::vector<int> list;  // kind 2: indexes (modulo the number of check-ups); kind 3: statuses 0..3
 };
 
-struct Plan {std::vector<CU> cus; std::vector<Ev> ev;};
+struct Plan {std::vector<CU> cus; std::vector<Ev> ev; int junk = 0;};
 
 struct Subject
 {
   int kind;
+  int vtype = 0;
   std::unique_ptr<rc::Checkup<double>> c;
+  std::unique_ptr<rc::Checkup<float>> cf;
+  std::unique_ptr<rc::Checkup<int>> ci;
   std::unique_ptr<rc::CheckupReliability> r;
-  rc::DiagnosticStatus evaluate(double v) {return kind == model::Reliability ? r->evaluate(v) : c->evaluate(v);}
-  rc::DiagnosticReport report() const {return kind == model::Reliability ? r->getReport() : rc::DiagnosticReport(c->getReport());}
+  rc::DiagnosticStatus evaluate(double v)
+  {
+    if (kind == model::Reliability) {return r->evaluate(v);}
+    return vtype == 1 ? cf->evaluate((float)v) : (vtype == 2 ? ci->evaluate((int)v) : c->evaluate(v));
+  }
+  void timeout() {if (vtype == 1) {cf->timeout();} else if (vtype == 2) {ci->timeout();} else {c->timeout();}}
+  rc::DiagnosticReport report() const
+  {
+    if (kind == model::Reliability) {return r->getReport();}
+    return vtype == 1 ? rc::DiagnosticReport(cf->getReport()) : (vtype == 2 ? rc::DiagnosticReport(ci->getReport()) : rc::DiagnosticReport(c->getReport()));
+  }
 };
 
 std::string rep3(const model::ReportModel & r)
@@ -78,6 +90,28 @@ Outcome runPlan(const Plan & p, Ctx & c)
     const bool init = u.initStatus >= 0 && u.kind != model::Reliability;
     rc::Diagnostic d0 = init ? rc::Diagnostic((rc::DiagnosticStatus)u.initStatus, u.initMessage) : rc::Diagnostic();
     if (init) {mod[k].rep.status = u.initStatus; mod[k].rep.message = u.initMessage; SIM_PROBE("constructed_with_initial_diagnostic");}
+    subj[k].vtype = u.kind == model::Reliability ? 0 : u.vtype;
+    if (subj[k].vtype == 1) {
+      // the same templates on float: thresholds and values are exactly representable in float, so the verdicts are those of the model
+      SIM_PROBE("checkup_on_float");
+      float a = (float)u.a, b = (float)u.b;
+      switch (u.kind) {
+        case model::EqualTo: subj[k].cf.reset(init ? new rc::CheckupEqualTo<float>(u.name, a, b, d0) : new rc::CheckupEqualTo<float>(u.name, a, b)); break;
+        case model::GreaterThan: subj[k].cf.reset(init ? new rc::CheckupGreaterThan<float>(u.name, a, b, d0) : new rc::CheckupGreaterThan<float>(u.name, a, b)); break;
+        default: subj[k].cf.reset(init ? new rc::CheckupLowerThan<float>(u.name, a, b, d0) : new rc::CheckupLowerThan<float>(u.name, a, b)); break;
+      }
+      continue;
+    }
+    if (subj[k].vtype == 2) {
+      SIM_PROBE("checkup_on_int");
+      int a = (int)u.a, b = (int)u.b;
+      switch (u.kind) {
+        case model::EqualTo: subj[k].ci.reset(init ? new rc::CheckupEqualTo<int>(u.name, a, b, d0) : new rc::CheckupEqualTo<int>(u.name, a, b)); break;
+        case model::GreaterThan: subj[k].ci.reset(init ? new rc::CheckupGreaterThan<int>(u.name, a, b, d0) : new rc::CheckupGreaterThan<int>(u.name, a, b)); break;
+        default: subj[k].ci.reset(init ? new rc::CheckupLowerThan<int>(u.name, a, b, d0) : new rc::CheckupLowerThan<int>(u.name, a, b)); break;
+      }
+      continue;
+    }
     switch (u.kind) {
       case model::EqualTo: subj[k].c.reset(init ? new rc::CheckupEqualTo<double>(u.name, u.a, u.b, d0) : new rc::CheckupEqualTo<double>(u.name, u.a, u.b)); break;
       case model::GreaterThan: subj[k].c.reset(init ? new rc::CheckupGreaterThan<double>(u.name, u.a, u.b, d0) : new rc::CheckupGreaterThan<double>(u.name, u.a, u.b)); break;
@@ -113,43 +147,47 @@ Outcome runPlan(const Plan & p, Ctx & c)
     if ((e.kind == 0 || e.kind == 1 || e.kind == 2) && n == 0) {continue;}
     if (e.kind == 0) {
       size_t k = (size_t)e.i % n; const CU & u = p.cus[k];
+      // the value as the check-up's value type holds it (a shrunk or hand-written plan may carry any double)
+      double ev = e.v;
+      if (u.kind != model::Reliability && u.vtype == 1) {ev = (double)(float)e.v; if (!std::isfinite(ev)) {ev = 0;}}
+      if (u.kind != model::Reliability && u.vtype == 2) {ev = std::trunc(std::max(-99999.0, std::min(99999.0, e.v)));}
       SIM_COUNT("op.evaluate");
-      model::Verdict exact = model::classify(u.kind, e.v, u.a, u.b), rounded = model::classifyRounded(u.kind, e.v, u.a, u.b);
+      model::Verdict exact = model::classify(u.kind, ev, u.a, u.b), rounded = model::classifyRounded(u.kind, ev, u.a, u.b);
       if (u.kind != model::Reliability) {
         double lo = u.a - u.b, hi = u.a + u.b;
         bool usesLo = u.kind != model::LowerThan, usesHi = u.kind != model::GreaterThan;
-        if ((usesLo && e.v == lo) || (usesHi && e.v == hi)) {SIM_PROBE("value_exactly_on_threshold");}
-        if ((usesLo && (e.v == std::nextafter(lo, INFINITY) || e.v == std::nextafter(lo, -INFINITY))) ||
-          (usesHi && (e.v == std::nextafter(hi, INFINITY) || e.v == std::nextafter(hi, -INFINITY)))) {SIM_PROBE("value_one_ulp_from_threshold");}
+        if ((usesLo && ev == lo) || (usesHi && ev == hi)) {SIM_PROBE("value_exactly_on_threshold");}
+        if ((usesLo && (ev == std::nextafter(lo, INFINITY) || ev == std::nextafter(lo, -INFINITY))) ||
+          (usesHi && (ev == std::nextafter(hi, INFINITY) || ev == std::nextafter(hi, -INFINITY)))) {SIM_PROBE("value_one_ulp_from_threshold");}
         if (u.b == 0) {SIM_PROBE("zero_epsilon");}
       } else {
-        if (e.v == u.a || e.v == u.b) {SIM_PROBE("reliability_exactly_on_threshold");}
+        if (ev == u.a || ev == u.b) {SIM_PROBE("reliability_exactly_on_threshold");}
       }
-      if (e.v == 0 && std::signbit(e.v)) {SIM_PROBE("negative_zero_value");}
-      if (e.v != 0 && std::fabs(e.v) < DBL_MIN) {SIM_PROBE("denormal_value");}
-      if (std::fabs(e.v) > 1e300) {SIM_PROBE("huge_value");}
+      if (ev == 0 && std::signbit(ev)) {SIM_PROBE("negative_zero_value");}
+      if (ev != 0 && std::fabs(ev) < DBL_MIN) {SIM_PROBE("denormal_value");}
+      if (std::fabs(ev) > 1e300) {SIM_PROBE("huge_value");}
       if (mod[k].rep.status == model::STALE && evaluated[k]) {SIM_PROBE("evaluate_after_timeout");}
-      int ret = (int)subj[k].evaluate(e.v);
+      int ret = (int)subj[k].evaluate(ev);
       int before = mod[k].rep.status;
-      mod[k].evaluate(e.v);
+      mod[k].evaluate(ev);
       if (before != mod[k].rep.status && evaluated[k]) {SIM_PROBE("status_changed_by_evaluation");}
       evaluated[k] = true;
       c.log((uint64_t)ret);
       c.note(fmt("#%zu evaluate %s '%s' (a=%.17g b=%.17g) value %.17g -> %s (model %s)", no, model::kindName(u.kind),
-        u.name.c_str(), u.a, u.b, e.v, model::statusName(ret), model::statusName(exact.status)));
+        u.name.c_str(), u.a, u.b, ev, model::statusName(ret), model::statusName(exact.status)));
       model::ReportModel alt = mod[k].rep; bool inexact = false;
       if (rounded.status != exact.status || std::string(rounded.suffix) != exact.suffix) {
         inexact = true; alt.status = rounded.status; alt.message = u.name + rounded.suffix; SIM_COUNT("inexact_threshold_either_accepted");
       }
       if (ret != exact.status && !(inexact && ret == rounded.status)) {
         return Outcome::fail("returned-status-mismatch", fmt("event #%zu: %s '%s' (a=%.17g, b=%.17g) evaluate(%.17g) returned %s, "
-                 "the statement gives %s", no, model::kindName(u.kind), u.name.c_str(), u.a, u.b, e.v, model::statusName(ret),
+                 "the statement gives %s", no, model::kindName(u.kind), u.name.c_str(), u.a, u.b, ev, model::statusName(ret),
                  model::statusName(exact.status)));
       }
       Outcome o = checkOne(k, "after evaluate", inexact ? &alt : nullptr); if (!o.ok) {return o;}
       if (ret != mod[k].rep.status) {
         return Outcome::fail("returned-status-differs-from-report", fmt("event #%zu: evaluate(%.17g) returned %s but the report stores %s",
-                 no, e.v, model::statusName(ret), model::statusName(mod[k].rep.status)));
+                 no, ev, model::statusName(ret), model::statusName(mod[k].rep.status)));
       }
       for (size_t j = 0; j < n; ++j) {if (j != k) {Outcome oj = checkOne(j, "bystander after evaluate", nullptr); if (!oj.ok) {return oj;}}}
     } else if (e.kind == 1) {
@@ -158,7 +196,7 @@ Outcome runPlan(const Plan & p, Ctx & c)
       SIM_COUNT("fault.watchdog_timeout.fired");
       if (!evaluated[k]) {SIM_PROBE("timeout_before_any_evaluation");}
       if (mod[k].rep.status == model::STALE && evaluated[k]) {SIM_PROBE("timeout_twice_in_a_row");}
-      subj[k].c->timeout(); mod[k].timeout();
+      subj[k].timeout(); mod[k].timeout();
       c.note(fmt("#%zu timeout '%s'", no, p.cus[k].name.c_str()));
       for (size_t j = 0; j < n; ++j) {Outcome oj = checkOne(j, j == k ? "after timeout" : "bystander after timeout", nullptr); if (!oj.ok) {return oj;}}
     } else if (e.kind == 2) {
@@ -218,7 +256,13 @@ Outcome runPlan(const Plan & p, Ctx & c)
         for (int k = 0; k < ni; ++k) {std::string key = fmt("k%llu", (unsigned long long)rr.below(5)), val = fmt("v%llu", (unsigned long long)rr.below(1000)); if (!r.info.count(key)) {r.info[key] = val; if (!wantInfo.count(key)) {wantInfo[key] = val;} else {SIM_PROBE("synthetic_info_key_collision");}}}
         if (nd == 0 && ni > 0) {SIM_PROBE("synthetic_report_with_info_but_no_diagnostic");}
         if (nd == 0 && ni == 0) {SIM_PROBE("synthetic_empty_report");}
-        total += r; ++nrep;
+        // every other report is appended as a temporary (function results are appended that way), the others as named
+        // objects, which must come out of it unchanged
+        if (nrep & 1) {total += std::move(r); SIM_PROBE("report_appended_as_rvalue");} else {
+          total += r;
+          if ((int)r.diagnostics.size() != nd) {return Outcome::fail("append-changed-its-source", fmt("event #%zu: a named report lost diagnostics by being appended to another", no));}
+        }
+        ++nrep;
       }
       c.note(fmt("#%zu append %zu synthetic reports", no, nrep));
       size_t pos = 0; bool okd = total.diagnostics.size() == wantDiag.size();
@@ -285,10 +329,24 @@ struct PropC18
   }
 
   // target and epsilon as multiples of one power of two: target +- epsilon is exact
-  static void drawThresholds(Rng & r, int kind, double & a, double & b)
+  static void drawThresholds(Rng & r, int kind, double & a, double & b, int vtype = 0)
   {
+    if (kind != model::Reliability && vtype == 1) {
+      // float: mantissas below 2^11 on one power-of-two grid, so that a, b and a +- b are exact in float
+      double q = std::ldexp(1.0, (int)r.range(-20, 20));
+      a = (double)r.range(-1024, 1024) * q; b = r.chance(0.2) ? 0.0 : (double)r.range(0, 1024) * q; return;
+    }
+    if (kind != model::Reliability && vtype == 2) {a = (double)r.range(-1000, 1000); b = r.chance(0.2) ? 0.0 : (double)r.range(0, 50); return;}
     if (kind == model::Reliability) {
       a = std::floor(r.unit() * 64) / 64; b = std::min(1.0, a + std::floor(r.unit() * 32) / 64);
+      // thresholds are compared directly, no arithmetic: decimal fractions and arbitrary doubles (not representable in
+      // any narrower type) are as good as dyadic ones
+      switch (r.below(4)) {
+        case 0: a = (double)r.range(0, 10) / 10; b = std::min(1.0, a + (double)r.range(0, 5) / 10); break;
+        case 1: a = (double)r.range(0, 100) / 100; b = std::min(1.0, a + (double)r.range(0, 50) / 100); break;
+        case 2: a = r.unit(); b = a + (1 - a) * r.unit(); break;
+        default: break;
+      }
       if (r.chance(0.1)) {b = a;}
       if (r.chance(0.15)) {std::swap(a, b);}   // low above high: 'ERROR below the low threshold' still comes first
       return;
@@ -306,6 +364,25 @@ struct PropC18
   }
   static double drawValue(Rng & r, const CU & u)
   {
+    if (u.kind != model::Reliability && u.vtype == 2) {
+      double t = r.chance(0.5) ? u.a - u.b : u.a + u.b;
+      return r.chance(0.7) ? t + (double)r.range(-2, 2) : (double)r.range(-3000, 3000);
+    }
+    if (u.kind != model::Reliability && u.vtype == 1) {
+      float t = (float)(r.chance(0.5) ? u.a - u.b : u.a + u.b); float v;
+      switch (r.below(8)) {
+        case 0: v = t; break;
+        case 1: v = std::nextafterf(t, INFINITY); break;
+        case 2: v = std::nextafterf(t, -INFINITY); break;
+        case 3: v = (float)u.a; break;
+        case 4: v = std::nextafterf(std::nextafterf(t, INFINITY), INFINITY); break;
+        case 5: v = std::nextafterf(std::nextafterf(t, -INFINITY), -INFINITY); break;
+        case 6: v = (float)(r.normal() * std::ldexp(1.0, (int)r.range(-30, 30))); break;
+        default: v = t + (float)((std::fabs(u.b) + std::fabs(t) * 1e-3 + 1e-30) * r.uniform(-2, 2)); break;
+      }
+      if (!std::isfinite(v)) {v = t;}
+      return (double)v;
+    }
     double lo = u.kind == model::Reliability ? u.a : u.a - u.b, hi = u.kind == model::Reliability ? u.b : u.a + u.b;
     double thr = r.chance(0.5) ? lo : hi;
     switch (r.below(14)) {
@@ -333,7 +410,8 @@ struct PropC18
     int n = (int)r.range(1, 6);
     for (int k = 0; k < n; ++k) {
       CU u; u.kind = (int)r.below(4); u.name = r.chance(0.8) ? std::string(names[k]) : std::string(r.pick(names));
-      drawThresholds(r, u.kind, u.a, u.b);
+      if (u.kind != model::Reliability && r.chance(0.3)) {u.vtype = r.chance(0.5) ? 1 : 2;}
+      drawThresholds(r, u.kind, u.a, u.b, u.vtype);
       if (r.chance(0.2)) {u.initStatus = (int)r.below(4); u.initMessage = r.chance(0.5) ? std::string("no data received from ") + u.name : std::string("booting");}
       p.cus.push_back(u);
     }
@@ -381,20 +459,27 @@ struct PropC18
     return p;
   }
 
-  Plan generate(uint64_t index) const
+  // heap contents are an input of the run like any other: every fresh allocation is filled with a byte chosen by the plan
+  Plan generate(uint64_t index) const {Plan p = generate0(index); p.junk = (int)(mix64(master ^ 0x6a756e6bULL, index) % 5); return p;}
+  Outcome execute(const Plan & p, Ctx & c) const {sim::junkHeap(p.junk); return execute0(p, c);}
+  Json toJson(const Plan & p) const {Json j = toJson0(p); j.set("heap_fill_index", p.junk); return j;}
+  Plan fromJson(const Json & j) const {Plan p = fromJson0(j); if (j.has("heap_fill_index")) {p.junk = (int)j["heap_fill_index"].i();} return p;}
+  std::vector<Plan> simpler(const Plan & p) const {std::vector<Plan> out = simpler0(p); if (p.junk != 0) {Plan q = p; q.junk = 0; out.push_back(q);} return out;}
+  Plan generate0(uint64_t index) const
   {
     if (index < scriptedPlans.size()) {return scriptedPlans[index];}
     return randomPlan(mix64(master, index - scriptedPlans.size()));
   }
-  Outcome execute(const Plan & p, Ctx & c) const {return runPlan(p, c);}
+  Outcome execute0(const Plan & p, Ctx & c) const {return runPlan(p, c);}
 
-  Json toJson(const Plan & p) const
+  Json toJson0(const Plan & p) const
   {
     Json j = Json::object(); Json cu = Json::array();
     for (auto & u : p.cus) {
       Json o = Json::object(); o.set("kind", model::kindName(u.kind)).set("kind_id", u.kind).set("name", u.name);
       o.set(u.kind == model::Reliability ? "low" : "target", u.a).set(u.kind == model::Reliability ? "high" : "epsilon", u.b);
       if (u.initStatus >= 0) {o.set("initial_status", u.initStatus).set("initial_message", u.initMessage);}
+      if (u.kind != model::Reliability) {o.set("value_type", u.vtype == 1 ? "float" : (u.vtype == 2 ? "int" : "double")).set("value_type_id", u.vtype);}
       cu.push(o);
     }
     j.set("checkups", cu);
@@ -410,13 +495,14 @@ struct PropC18
     j.set("events", ev);
     return j;
   }
-  Plan fromJson(const Json & j) const
+  Plan fromJson0(const Json & j) const
   {
     Plan p;
     for (auto & o : j["checkups"].a()) {
       CU u; u.kind = (int)o["kind_id"].i(); u.name = o["name"].s();
       u.a = u.kind == model::Reliability ? o["low"].d() : o["target"].d(); u.b = u.kind == model::Reliability ? o["high"].d() : o["epsilon"].d();
       if (o.has("initial_status")) {u.initStatus = (int)o["initial_status"].i(); u.initMessage = o["initial_message"].s();}
+      if (o.has("value_type_id")) {u.vtype = (int)o["value_type_id"].i();}
       p.cus.push_back(u);
     }
     for (auto & o : j["events"].a()) {
@@ -432,7 +518,7 @@ struct PropC18
     return p;
   }
 
-  std::vector<Plan> simpler(const Plan & p) const
+  std::vector<Plan> simpler0(const Plan & p) const
   {
     std::vector<Plan> out;
     removalCandidates(p.ev, [&](std::vector<Ev> v) {Plan q = p; q.ev = std::move(v); out.push_back(q);});
@@ -518,10 +604,10 @@ struct PropC18
   {
     Json d = Json::object();
     d.set("rule",
-      "Each run draws 1..6 check-ups (EqualTo / GreaterThan / LowerThan <double>, Reliability; names may coincide) with "
-      "thresholds on a power-of-two grid (so that target +- epsilon is exact; including zero epsilon, huge and denormal "
-      "scales) and runs a discrete-event world: one sensor per check-up (with silences), a watchdog that times out silent "
-      "check-ups, an aggregator that appends up to 20 report copies. Values are placed on each threshold, one and two ulps "
+      "Each run draws 1..6 check-ups (EqualTo / GreaterThan / LowerThan on double, and in 30 % of the cases on float or int; Reliability; names may coincide) with "
+      "thresholds on a power-of-two grid (so that target +- epsilon is exact in the value type; including zero epsilon, huge and denormal "
+      "scales; reliability thresholds also as tenths, hundredths and arbitrary doubles) and runs a discrete-event world: one sensor per check-up (with silences), a watchdog that times out silent "
+      "check-ups, an aggregator that appends up to 20 report copies (to an empty or a header-only report; synthetic reports alternately as named objects and as rvalues). Values are placed on each threshold, one and two ulps "
       "either side, on the target, between and beyond the thresholds, +-0, denormal, +-DBL_MAX and random. All observables "
       "of all check-ups are compared with the model after every event; the 4^3 status triples are enumerated at the start of "
       "every run. distinct = distinct hash of (check-up kinds, per event: kind, subject, verdict class / list length); "
